@@ -5,6 +5,9 @@ Require Import SF.Prelude SF.Dtype SF.Value SF.RelJoinVal SF.RelStack SF.RelStac
 Definition val_cmp (a b : val) : comparison :=
   match a, b with
   | VStr x, VStr y => String.compare x y
+  | VBytes x, VBytes y => String.compare x y
+  | VDt _ x, VDt _ y => Z.compare x y
+  | VTd _ x, VTd _ y => Z.compare x y
   | _, _ => match num_view a, num_view b with
             | Some (n1, d1), Some (n2, d2) => Z.compare (n1 * d2) (n2 * d1)
             | _, _ => Eq
@@ -56,25 +59,14 @@ Definition pivot_view (show_d show_f : bool) (dnames : list val) (f : sframe val
 Definition pivot0_view (show_f : bool) (dnames : list val) (f : sframe val tup (nat * nfunc)) : vsframe :=
   mk_sframe (sf_rows f) (map (fun kf => pivot_label true show_f dnames ([], kf)) (sf_cols f)) (sf_cells f).
 
-Definition M_pivot_v (fill : val) (show_d show_f : bool) (dnames : list val) (funcs : list nfunc) (rows : list vprow) : vsframe :=
-  pivot_view show_d show_f dnames
-    (M_pivot tup_eqb tup_eqb sort_tups sort_tups apply_nfunc fill (length dnames) funcs rows).
+(* M_pivot_v / M_pivot0_v / pivot_m_ok: SF/RelPivotGenVal.v (they read the regenerated flags; this file must not) *)
 Definition S_pivot_v (fill : val) (show_d show_f : bool) (dnames : list val) (funcs : list nfunc) (rows : list vprow) : vsframe :=
   pivot_view show_d show_f dnames
     (S_pivot tup_eqb tup_eqb apply_nfunc fill (length dnames) funcs rows).
-Definition M_pivot0_v (fill : val) (show_f : bool) (dnames : list val) (funcs : list nfunc) (rows : list vprow) : vsframe :=
-  pivot0_view show_f dnames (M_pivot0 tup_eqb sort_tups apply_nfunc fill (length dnames) funcs rows).
 Definition S_pivot0_v (fill : val) (show_f : bool) (dnames : list val) (funcs : list nfunc) (rows : list vprow) : vsframe :=
   pivot0_view show_f dnames (S_pivot0 tup_eqb apply_nfunc fill (length dnames) funcs rows).
 
 (* has_cols = false: no columns_fields *)
-Definition pivot_m_ok (has_cols : bool) (fill : val) (show_d show_f : bool) (dnames : list val) (funcs : list nfunc)
-                      (rows : list vprow) (obs : res vsframe) : bool :=
-  match obs with
-  | Ok o => vsframe_eqb (if has_cols then M_pivot_v fill show_d show_f dnames funcs rows
-                         else M_pivot0_v fill show_f dnames funcs rows) o
-  | Err _ => false
-  end.
 Definition pivot_s_ok (has_cols : bool) (fill : val) (show_d show_f : bool) (dnames : list val) (funcs : list nfunc)
                       (rows : list vprow) (obs : res vsframe) : bool :=
   match obs with
